@@ -735,7 +735,7 @@ def run_refusal(case):
     sp, opts = scopes.h_spec(c)
     vs = []
     statuses = []
-    inners = ({"tolerance_colebrook": 1e-13, "max_iter_colebrook": 200}, {"max_iter_colebrook": 3}, {})
+    inners = ({"tolerance_colebrook": 1e-13, "max_iter_colebrook": 200}, {"max_iter_colebrook": 3})
     if not any(d[0] in ("friction", "method", "alpha", "numba") for d in c["dev"]):
         inners = ({},)    # pairs of branch kinds with default solver settings
     for inner in inners:
